@@ -64,7 +64,7 @@ class Gen:
             if so[1] is None:
                 so[1] = k
                 self.lines.append("P %d shmlock %d" % k)
-            elif so[1][0] != p and len(self.blocked) < 2:
+            elif so[1][0] != p and len(self.blocked) < 2 and not any(self.h[k2][3] is so for k2 in self.blocked.values()):
                 self.lines.append("A %d shmlock %d" % k)
                 self.lines.append("T %d" % p)
                 self.blocked[p] = k
@@ -93,14 +93,21 @@ class Gen:
                 return
 
     def finish(self):
-        for p, k in list(self.blocked.items()):
-            so = self.h[k][3]
-            holder = so[1]
-            if holder and holder in self.h:
-                self.lines.append("P %d shmunlock %d" % holder)
-                so[1] = None
-                self.grant(so)
+        progress = True
+        while self.blocked and progress:          # in dependency order: a holder that is itself blocked cannot unlock yet
+            progress = False
+            for p, k in list(self.blocked.items()):
+                so = self.h[k][3]
+                holder = so[1]
+                if holder and holder in self.h and holder[0] not in self.blocked:
+                    self.lines.append("P %d shmunlock %d" % holder)
+                    so[1] = None
+                    self.grant(so)
+                    progress = True
+                    break
         for k, v in list(self.h.items()):
+            if k[0] in self.blocked:
+                continue
             if v[3][1] == k:
                 self.lines.append("P %d shmunlock %d" % k)
                 v[3][1] = None
